@@ -10,7 +10,7 @@ use serde::{Deserialize, Serialize};
 use serde_json::json;
 
 use crate::gen;
-use crate::runner::{CheckResult, Env, Job, Outcome, PropJob};
+use crate::runner::{guarded, CheckResult, EnumJob, Env, Job, JobReport, Outcome, PropJob};
 use crate::util::{rc, to_ascii, Seq};
 
 pub const RULE: &str = "case = operation history (0..14 ops) over {new, with_capacity(n), blank(n), Vmer::new(n), from_bytes, from_dna_string(text), from_acgt_bytes(text), push, extend(iterator of 0..100 bases incl. exact multiples of 32), push_bytes(packed bytes, count), set_mut, clear} with lengths biased to 0 and multiples of 32, plus a second DnaString with nearby content and a PackedDnaStringSet fed with generated sequences; after EVERY op: len/is_empty/get/iter/IntoIterator/to_bytes/to_ascii_vec/Display/Debug/reverse/rc equal the Vec<u8> model, and ==, Hash, cmp against the string rebuilt from the model by from_bytes and by push agree with the model (lexicographic, proper prefix first); ndiffs/hamming_distance equal the naive count; every sequence added to the packed set is returned unchanged at its index. Non-trivial = >= 3 ops of >= 2 kinds with a non-empty final string.";
@@ -391,13 +391,87 @@ pub fn check(c: &Case) -> CheckResult {
         .label(c.set.len() >= 2, "packed_set>=2"))
 }
 
+/// Strings and packed-set entries longer than 65 535 bases (16-bit boundaries of lengths and offsets).
+fn long_check(seed: u64, len: usize) -> Result<(), String> {
+    let mut st = seed;
+    let mut r = 0u64;
+    let m: Seq = (0..len)
+        .map(|j| {
+            if j % 32 == 0 {
+                r = crate::util::splitmix(&mut st);
+            }
+            ((r >> (2 * (j % 32))) & 3) as u8
+        })
+        .collect();
+    let mut d = DnaString::from_bytes(&m);
+    same("long from_bytes", &d, &m)?;
+    let mut mm = m.clone();
+    d.push(2);
+    mm.push(2);
+    d.extend([1u8, 3, 0, 2, 2].iter().cloned());
+    mm.extend_from_slice(&[1, 3, 0, 2, 2]);
+    d.set_mut(len - 1, 3 - mm[len - 1]);
+    mm[len - 1] = 3 - mm[len - 1];
+    same("long push/extend/set", &d, &mm)?;
+    // views around the 65 536 boundary
+    for (a, b) in [(65530usize.min(len), len), (0, 65536.min(len)), (65535.min(len), (65535 + 40).min(mm.len())), (len.saturating_sub(70), len)] {
+        if a <= b && b <= mm.len() {
+            let v = d.slice(a, b);
+            crate::props::c15::check_view("view of a long string", &v, &mm[a..b], false, seed)?;
+            if b - a <= 300 {
+                let vr = v.rc();
+                crate::props::c15::check_view("rc view of a long string", &vr, &rc(&mm[a..b]), true, seed)?;
+            }
+        }
+    }
+    // packed set: a long entry followed by short ones (starts beyond 65 535, length beyond 65 535)
+    let mut set = PackedDnaStringSet::new();
+    set.add([0u8, 1, 2].iter());
+    set.add(m.iter());
+    set.add([3u8, 3, 1, 0].iter());
+    if set.get(1).len() != len || set.get(1).bytes() != m {
+        return Err(format!("PackedDnaStringSet: an entry of {} bases reads back with length {}", len, set.get(1).len()));
+    }
+    if set.get(2).bytes() != [3u8, 3, 1, 0] || set.get(0).bytes() != [0u8, 1, 2] {
+        return Err("PackedDnaStringSet: entries around a long entry read back wrong".into());
+    }
+    if set.slice(1, len - 5, len).bytes() != m[len - 5..] {
+        return Err("PackedDnaStringSet::slice at the end of a long entry wrong".into());
+    }
+    Ok(())
+}
+
+fn long_job() -> Box<dyn Job> {
+    let lens = [65535usize, 65536, 65537, 70001];
+    EnumJob {
+        name: "long_strings".into(),
+        run: Box::new(move |env: &Env, rep: &mut JobReport| {
+            for len in lens {
+                let seed = env.job_seed("long") ^ len as u64;
+                match guarded(|| long_check(seed, len)) {
+                    Ok(()) => rep.pass(&Outcome::new(true).label(true, "len>=65535"), len as u64, || json!({"len": len})),
+                    Err(m) => rep.fail(m, json!({"seed": seed.to_string(), "len": len})),
+                }
+            }
+        }),
+        replay: Box::new(|case: &serde_json::Value| {
+            let c = case.get("case").unwrap_or(case);
+            let seed: u64 = c.get("seed").and_then(|v| v.as_str()).and_then(|s| s.parse().ok()).ok_or("no seed")?;
+            let len = c.get("len").and_then(|v| v.as_u64()).ok_or("no len")? as usize;
+            Ok(guarded(|| long_check(seed, len)).map(|_| Outcome::new(true)))
+        }),
+    }
+    .boxed()
+}
+
 #[cfg(not(fuzzing))]
 pub fn jobs(_env: &Env) -> Vec<Box<dyn Job>> {
-    (0..16)
+    let mut v: Vec<Box<dyn Job>> = vec![long_job()];
+    v.extend((0..16)
         .map(|i| {
             PropJob::new(format!("history/{}", i), 1500, 60000, |e: &Env| case_strategy(e), check)
                 .with_render(|c: &Case| json!({"ops": c.ops.len(), "other": to_ascii(&c.other)}))
                 .boxed()
-        })
-        .collect()
+        }));
+    v
 }
